@@ -19,6 +19,7 @@ import (
 
 // Host runs the real proxy in-process and controls its poller loop through the verif hooks.
 type Host struct {
+	Steps int // iterations of the loop so far
 	Addr string
 
 	free    int32 // 1: gate open
@@ -173,6 +174,7 @@ func (h *Host) Step() (seen []SeenEv, ok bool) {
 	h.seen = nil
 	h.seenMu.Unlock()
 	h.Parked = false
+	h.Steps++
 	t0 := time.Now()
 	defer func() {
 		if d := time.Since(t0); d > 50*time.Millisecond && os.Getenv("VERIF_TIMING") != "" {
